@@ -48,7 +48,8 @@ Print Assumptions C13_preview_no_rng_no_rates.
 
 (* What preview returns is either the empty result or the evaluator's own
    result, and then: non-empty, not the unit type, at most 50 bytes, not an
-   echo of the (trimmed) input, no C0 control character. *)
+   echo of the (trimmed) input, no control character (C0, DEL, C1) and no
+   U+2028 / U+2029. *)
 Theorem C13_preview_output_ok :
   forall vars settings rng rates payload (dp : payload) world call_rng call_rates
          (p : prog vars settings payload) fire input (c : context vars settings rng rates) (w : world) r,
@@ -56,7 +57,7 @@ Theorem C13_preview_output_ok :
   r = empty_result dp
   \/ (snd (run _ _ _ _ _ _ call_rng call_rates fire p (mkst (disabled _ _ _ _ c) w 0)) = OOk r
       /\ r_text r <> [] /\ r_unit r = false /\ utf8_length (r_text r) <= 50
-      /\ trim (r_text r) <> trim input /\ has_c0 (r_text r) = false).
+      /\ trim (r_text r) <> trim input /\ has_ctl (r_text r) = false).
 Proof. exact preview_output_ok_lemma. Qed.
 Print Assumptions C13_preview_output_ok.
 
@@ -70,19 +71,27 @@ Theorem C13_preview_failure_shows_nothing :
 Proof. exact preview_failure_empty. Qed.
 Print Assumptions C13_preview_failure_shows_nothing.
 
-(* "never multi-line": with line breaks as Unicode defines them (LF VT FF CR
-   NEL LS PS) the statement is false for the filter as written (c < ' ' only):
-   a string result containing U+0085 passes. *)
-Theorem C13_preview_single_line_refuted :
-  exists input (r : fresult unit), keep input r = true /\ single_line (r_text r) = false.
-Proof. exact single_line_refuted_lemma. Qed.
-Print Assumptions C13_preview_single_line_refuted.
-
-Theorem C13_preview_single_line_except_known :
+(* "never multi-line", full strength since the repair eacb46c: with line
+   breaks as Unicode defines them (LF VT FF CR NEL LS PS), whatever preview
+   shows is a single line. *)
+Theorem C13_preview_single_line :
   forall payload input (r : fresult payload),
-  keep input r = true -> known_c13_linebreak (r_text r) = false -> single_line (r_text r) = true.
-Proof. exact single_line_except_known_lemma. Qed.
-Print Assumptions C13_preview_single_line_except_known.
+  keep input r = true -> single_line (r_text r) = true.
+Proof. exact single_line_lemma. Qed.
+Print Assumptions C13_preview_single_line.
+
+(* The filter as it was before the repair (c < ' ' only) let a string result
+   containing U+0085 through; outside that class it was single-line too. *)
+Theorem C13_preview_single_line_old_refuted :
+  exists input (r : fresult unit), keep_old input r = true /\ single_line (r_text r) = false.
+Proof. exact single_line_old_refuted_lemma. Qed.
+Print Assumptions C13_preview_single_line_old_refuted.
+
+Theorem C13_preview_single_line_old_except_known :
+  forall payload input (r : fresult payload),
+  keep_old input r = true -> known_c13_linebreak (r_text r) = false -> single_line (r_text r) = true.
+Proof. exact single_line_old_except_known_lemma. Qed.
+Print Assumptions C13_preview_single_line_old_except_known.
 
 (* ------------------------------------------------------------------ *)
 (* non-vacuity: an evaluator that assigns, polls twice, draws a random number
@@ -112,5 +121,8 @@ Example C13_filter_examples :
   /\ preview_shows [120] [97; 10; 98] false = false        (* newline *)
   /\ preview_shows [120] (repeat 49 51) false = false      (* 51 bytes *)
   /\ preview_shows [120] (repeat 49 50) false = true       (* 50 bytes *)
-  /\ preview_shows [120] (repeat 233 26) false = false.    (* 26 two-byte chars *)
+  /\ preview_shows [120] (repeat 233 26) false = false     (* 26 two-byte chars *)
+  /\ preview_shows [120] [97; 133; 98] false = false       (* NEL *)
+  /\ preview_shows [120] [8232] false = false              (* LINE SEPARATOR *)
+  /\ preview_shows [120] [127] false = false.              (* DEL *)
 Proof. vm_compute. repeat split. Qed.
